@@ -360,7 +360,7 @@ TRUSTED_BASE_COMMON = [
 
 
 def run_check(prop_id, required, correspond, witnesses=None, search=None, trusted=(), assumptions=(),
-              extra_targets=(), thorough_modules=None):
+              extra_targets=(), thorough_modules=None, prepare=None):
   """Generic P -> K -> W -> S protocol.
 
   correspond(res, rng, tier) -> list of disagreement dicts (empty = model and code agree).
@@ -371,6 +371,8 @@ def run_check(prop_id, required, correspond, witnesses=None, search=None, truste
   rng = random.Random(seed() * 1000003 + 17)
   res.cov["trusted_base"] = TRUSTED_BASE_COMMON + list(trusted)
   res.assumptions = list(assumptions)
+  if prepare:
+    prepare()   # translators: regenerate Generated/*.lean from REPO before anything is built
   p = prove(prop_id, required, extra_targets)
   res.cov["obligations"] = p["obligations"]
   res.cov["discharged"] = p["discharged"]
